@@ -141,9 +141,13 @@ Small(rel) == rel <= Tol8
 (* a constant factor (or by the order of summation) stop within a few xtol of each other: *)
 (* 5e-4 absolute + 1e-4 relative (measured spread <= 1.9e-4).                             *)
 DeltaClose(dd, dq) == dd <= 500 + (dq \div 10000)
-(* ... and then alpha and beta (functions of delta) agree to 1e-3 relative.  Without this the   *)
-(* absolute tolerance on delta hid a beta of 1069 against 68411 at delta 2e-4 against 3e-6.     *)
-AbClose(ab) == ab <= 1000000000
+(* ... and then alpha and beta agree as far as that uncertainty of delta allows: abl = the    *)
+(* larger |ln ratio| of alpha and beta x 10^6.  beta ~ 1/delta for small delta, so a delta    *)
+(* known to T = DeltaClose's tolerance leaves beta uncertain by about T/delta relative: 1e-3  *)
+(* + 3 T/delta.  (At delta ~ 1: 3e-3; at delta ~ xtol nothing is determined - fmin's          *)
+(* absolute xtol cannot resolve a minimiser there, see DeltaLocalMin.)                        *)
+RelTpm(dq) == IF dq <= 0 THEN 600000 ELSE IF dq < 1000000 THEN ((500 + (dq \div 10000)) * 1000) \div dq ELSE 1
+AbClose(abl, dq) == abl <= 1000 + 3000 * RelTpm(dq)
 (* object histories of a free delta: the object holds a tiny delta (earlier fit to a sample whose  *)
 (* optimum is at delta -> 0, or constructed so).  Where the fresh fit found an interior delta      *)
 (* (0.05 .. 50) the fit of the object with a past must be a local minimiser as well and agree.     *)
